@@ -378,6 +378,9 @@ def run(ctx):
     D.error_discipline(ctx, "R-C09.10", scope=lambda f: f.startswith(("db::Database::create_new", "db::Database::persist", "journal::", "<journal::", "file::", "batch::WriteBatch::commit", "tx::write_tx::BaseTransaction::commit", "tx::optimistic::write_tx::WriteTransaction::commit")))
 
     # ---- borrowed obligations (mechanisms owned by other properties that this property's verdict also rests on)
+    # what is synced in a session is appended behind the repaired tail: if the repair leaves a torn batch's Start marker
+    # in place, everything persisted afterwards sits inside that dangling batch and the next recovery cuts it off
+    ctx.borrow("C03", ["R-C03.3"], "R-C09.12", only_instances=["cuts-at-last-verified-batch"])
     # a synced write journaled during an ingestion's finish() must not end up below the ingested tables' seqno (replay would skip it)
     ctx.borrow("C14", ["R-C14.2"], "R-C09.11")
     # what was synced before a journal rotation survives only as long as the sealed journal is kept for every keyspace that needs it
